@@ -95,8 +95,8 @@ def check(ctx, rep):
         rep.violation("result", FN, "comparison", "expected exactly one equality test involving the presented proof, found %d" % len(cmps), body.loc())
         return
     c = cmps[0]
-    ok, why = util.whole_value_type(fb, c["self_ty"])
-    same = c["rhs_ty"] is None or c["rhs_ty"].s == c["self_ty"].s
+    ok, why = util.whole_compare(ctx, c)
+    same = True
     rep.check(ok and same, "whole-value", FN, "proof-comparison", why, "proof comparison is not a whole-value equality: %s" % why, body.loc(c["bb"]))
     ops = [canon(ctx, se, a) for a in c["args"]]
     other = [o for o in ops if o != ("param", 3)]
